@@ -321,6 +321,10 @@ func newCtlEnv(c *ctx, netn int, peerIDs []int) *ctlEnv {
 	logger.Log.ExitFunc = func(int) { atomic.StoreInt32(&e.fatal, 1) }
 	for _, k := range append(peerIDs, fencePeer) {
 		a := &net.UDPAddr{IP: net.ParseIP(e.ip(k)), Port: 8805}
+		if k > 10 && k < fencePeer {
+			// peer 10+n: a second PFCP entity on peer n's host — same IP address, another UDP port
+			a = &net.UDPAddr{IP: net.ParseIP(e.ip(k - 10)), Port: 8806}
+		}
 		conn, err := net.ListenUDP("udp4", a)
 		if err != nil {
 			fmt.Fprintln(os.Stderr, "harness: cannot bind", a, err)
@@ -835,12 +839,31 @@ func (e *ctlEnv) abstractAddrs(s string) string {
 		if strings.HasPrefix(rest[j:], ":8805") {
 			b.WriteString("p" + rest[:j])
 			s = rest[j+5:]
+		} else if strings.HasPrefix(rest[j:], ":8806") {
+			b.WriteString("p1" + rest[:j]) // peer 10+n (n = 1..9)
+			s = rest[j+5:]
 		} else {
 			b.WriteString("4:p" + rest[:j])
 			s = rest[j:]
 		}
 	}
 	return b.String()
+}
+
+// resortTrans: the transaction lists of a dump are sorted by the raw "<ip>:<port>-<seq>" keys; after the addresses have been
+// replaced by peer names they are sorted again, by those names (the order the model prints)
+func resortTrans(d string) string {
+	fs := strings.Fields(d)
+	for i, f := range fs {
+		for _, k := range []string{"rx=", "tx=", "rxu="} {
+			if strings.HasPrefix(f, k) && f != k+"_" {
+				xs := strings.Split(f[len(k):], ",")
+				sort.Strings(xs)
+				fs[i] = k + strings.Join(xs, ",")
+			}
+		}
+	}
+	return strings.Join(fs, " ")
 }
 
 // ---------------------------------------------------------------------------
@@ -894,7 +917,11 @@ func (e *ctlEnv) exec(ev *event) (sends map[int][]string, rawSends map[int][][]b
 		if ev.tk == "rx" {
 			tt = pfcp.RX
 		}
-		e.srv.NotifyTransTimeout(tt, fmt.Sprintf("%s:8805-%d", e.ip(ev.peer), ev.seq))
+		if ev.peer > 10 && ev.peer < fencePeer {
+			e.srv.NotifyTransTimeout(tt, fmt.Sprintf("%s:8806-%d", e.ip(ev.peer-10), ev.seq))
+		} else {
+			e.srv.NotifyTransTimeout(tt, fmt.Sprintf("%s:8805-%d", e.ip(ev.peer), ev.seq))
+		}
 		for i := 0; pfcp.VerifToLen(e.srv) > 0 && i < 100000; i++ {
 			time.Sleep(20 * time.Microsecond)
 		}
@@ -932,7 +959,7 @@ func (e *ctlEnv) exec(ev *event) (sends map[int][]string, rawSends map[int][][]b
 		c.emit("X")
 		return
 	}
-	c.emit("D %s dp=%s", e.abstractAddrs(pfcp.VerifDump(e.srv)), e.drv.dump())
+	c.emit("D %s dp=%s", resortTrans(e.abstractAddrs(pfcp.VerifDump(e.srv))), e.drv.dump())
 	c.emit("X")
 	return
 }
